@@ -501,9 +501,6 @@ Qed.
 Lemma set_reg_l_app_len (rs : list (option hnd)) x o : set_reg_l (length rs) o (rs ++ [x]) = rs ++ [o].
 Proof. induction rs as [|y r IH]; cbn; [reflexivity|]. now rewrite IH. Qed.
 
-Definition new_only (r : relrec) : bool :=
-  plain r && match rr_qual r with None => true | Some _ => false end.
-
 Lemma crel_tree_new r : new_only r = true -> relation_new (rr_name r) (rr_ver r) = crel_tree r.
 Proof.
   unfold new_only. destruct r as [n [q|] v ar pr]; cbn [rr_qual rr_name rr_ver]; intros H.
@@ -661,27 +658,6 @@ Proof.
 Qed.
 
 (* ------------------------------------------------------------------ Entry::remove *)
-Lemma ws_prefix_len_le l : ws_prefix_len l <= length l.
-Proof. induction l as [|c r IH]; cbn; [lia|]. destruct (ws_elem c); lia. Qed.
-Lemma skipn_length_le {A} n (l : list A) : length (skipn n l) = length l - n.
-Proof. apply skipn_length. Qed.
-Lemma entry_remove_scan_next_le post k rc : entry_remove_scan_next post = Ok (k, rc) -> k <= length post.
-Proof.
-  unfold entry_remove_scan_next. pose proof (ws_prefix_len_le post) as H.
-  destruct (skipn (ws_prefix_len post) post) as [|c r] eqn:E.
-  - intros [= <- <-]. exact H.
-  - destruct (kind_is COMMA c); [|discriminate]. intros [= <- <-].
-    assert (length (skipn (ws_prefix_len post) post) = S (length r)) by now rewrite E.
-    rewrite skipn_length in H0. lia.
-Qed.
-Lemma entry_remove_scan_prev_le rc pre : entry_remove_scan_prev rc pre <= length pre.
-Proof.
-  unfold entry_remove_scan_prev. pose proof (ws_prefix_len_le (rev pre)) as H. rewrite rev_length in H.
-  destruct (skipn (ws_prefix_len (rev pre)) (rev pre)) as [|c r] eqn:E; [exact H|].
-  assert (length (skipn (ws_prefix_len (rev pre)) (rev pre)) = S (length r)) by now rewrite E.
-  rewrite skipn_length, rev_length in H0. destruct (negb rc && kind_is COMMA c); lia.
-Qed.
-
 Lemma entry_remove_spec ts rs r tid ri T p kd pre x post cs' :
   nth_error rs r = Some (Some (mk_hnd tid (p ++ [length pre]))) ->
   nth_error ts tid = Some (mk_slot true ri T) ->
@@ -1255,24 +1231,6 @@ Proof.
 Qed.
 
 (* ------------------------------------------------------------------ Relation::remove *)
-Lemma relation_remove_scan_next_le post k : relation_remove_scan_next post = Ok k -> k <= length post.
-Proof.
-  unfold relation_remove_scan_next. pose proof (ws_prefix_len_le post) as H.
-  destruct (skipn (ws_prefix_len post) post) as [|c r] eqn:E.
-  - intros [= <-]. exact H.
-  - destruct (kind_is PIPE c); [|discriminate]. intros [= <-].
-    assert (length (skipn (ws_prefix_len post) post) = S (length r)) by now rewrite E.
-    rewrite skipn_length in H0. pose proof (ws_prefix_len_le r). lia.
-Qed.
-Lemma relation_remove_scan_prev_le pre : relation_remove_scan_prev pre <= length pre.
-Proof.
-  unfold relation_remove_scan_prev. pose proof (ws_prefix_len_le (rev pre)) as H. rewrite rev_length in H.
-  destruct (skipn (ws_prefix_len (rev pre)) (rev pre)) as [|c r] eqn:E; [exact H|].
-  assert (length (skipn (ws_prefix_len (rev pre)) (rev pre)) = S (length r)) by now rewrite E.
-  rewrite skipn_length, rev_length in H0. pose proof (ws_prefix_len_le r).
-  destruct (kind_is PIPE c); lia.
-Qed.
-
 (* the cleanup loops of Relation::remove *)
 Lemma relation_remove_phase1 ts rs r tid ri T p kd pre x post cs' :
   nth_error rs r = Some (Some (mk_hnd tid (p ++ [length pre]))) ->
@@ -1371,13 +1329,6 @@ Proof.
   assert (Hrp2 : nth_error (map (option_map F2) rs1) (length rs) = Some (Some (mk_hnd tid pe))).
   { unfold rs1. rewrite <- (map_length (option_map F1) rs).
     rewrite (nth_error_map_reg F2 _ _ _ (nth_error_app_at _ _)). now rewrite A2 by apply above_self. }
-  (* the common prefix of the run *)
-  assert (Hhead : forall (k : M unit) st',
-     runs k (mk_state ts2 (map (option_map F2) rs1)) tt st' ->
-     forall ts3 rs3, st' = mk_state ts3 rs3 ->
-     runs (relation_remove fixed r) (mk_state ts rs) tt (mk_state ts3 (firstn (length rs) rs3)) \/ True).
-  { intros; now right. }
-  clear Hhead.
   assert (Hrun : forall (tail : M unit) ts3 rs3,
      runs tail (mk_state ts2 (map (option_map F2) rs1)) tt (mk_state ts3 rs3) ->
      tail = (pcs' <- (ph' <- get_reg (length rs) ;; children_of ph') ;;
@@ -1530,4 +1481,45 @@ Proof.
     rdone.
   - rewrite T'. f_equal. f_equal. cbn [upd_path]. rewrite l_remove_relation_split.
     unfold ecs', cfield_tree, relations_from_entries. reflexivity.
+Qed.
+
+(* ------------------------------------------------------------------ Relations::from(vec![Entry::from(vec![Relation::new(..)])]) *)
+Lemma build_entry_greens_new f : forallb (forallb new_only) f = true -> forall ts rs,
+  exists junk, runs (build_entry_greens fixed (map entry_spec f)) (mk_state ts rs)
+                    (map centry_tree f) (mk_state (ts ++ junk) rs).
+Proof.
+  induction f as [|e f IH]; intros H ts rs.
+  - exists []. rewrite app_nil_r. apply runs_ret.
+  - cbn [forallb] in H. apply andb_prop in H. destruct H as [He Hf].
+    destruct (build_relation_greens_new e He ts (rs ++ [Some (mk_hnd 0 [])])) as (junk1 & R1).
+    destruct (IH Hf ((ts ++ junk1) ++ [mk_slot true 0 (centry_tree e)]) rs) as (junk2 & R2).
+    exists (junk1 ++ mk_slot true 0 (centry_tree e) :: junk2).
+    cbn [map build_entry_greens].
+    rbind.
+    { eapply runs_eq; [apply runs_scoped|reflexivity|].
+      - rbind; [apply runs_push_tmp|]. unfold entry_spec at 1. cbn [build_entry].
+        rbind; [rbind; [exact R1|]; rbind; [apply runs_alloc|]; apply runs_set_reg|].
+        rewrite set_reg_l_app_len.
+        unfold node_of_reg. rbind; [apply runs_get_reg; apply nth_error_app_at|].
+        eapply runs_node_of; [apply nth_error_app_at|reflexivity].
+      - now rewrite firstn_app_len. }
+    rbind; [exact R2|]. rewrite <- !app_assoc. cbn [app]. rdone.
+Qed.
+
+Lemma init_from_vec f : forallb (forallb new_only) f = true ->
+  exists st, init_state fixed (IFromVec (map entry_spec f)) = Ok st /\ holds st (cfield_tree f).
+Proof.
+  intros H. destruct (build_entry_greens_new f H [] [None; None; None; None; None]) as (junk & R).
+  exists (st5 (junk ++ [mk_slot true 0 (cfield_tree f)]) (mk_hnd (length junk) []) None None None None).
+  split.
+  - unfold init_state, empty_state.
+    assert (R' : runs (build_init fixed (IFromVec (map entry_spec f))) (mk_state [] [None; None; None; None; None]) tt
+                      (st5 (junk ++ [mk_slot true 0 (cfield_tree f)]) (mk_hnd (length junk) []) None None None None)).
+    { cbn [build_init]. rbind; [exact R|]. cbn [app]. rbind; [apply runs_alloc|]. apply runs_set_reg. }
+    unfold runs in R'. now rewrite R'.
+  - do 7 eexists. split; [reflexivity|]. apply nth_error_app_at.
+Qed.
+Lemma init_new : exists st, init_state fixed INew = Ok st /\ holds st (cfield_tree []).
+Proof.
+  eexists. split; [reflexivity|]. now exists [mk_slot true 0 (cfield_tree [])], 0, 0, None, None, None, None.
 Qed.
